@@ -1407,7 +1407,25 @@ def m_copy(I, st, recv, args, kw, node):
     return st.alloc(Arr(a.shape, a.elem, kind=a.kind, etype=a.etype), "arr")
 
 
+def m_dict_get(I, st, recv, args, kw, node):
+    """d.get(k[, default])"""
+    default = args[1] if len(args) > 1 else NONE
+    if isinstance(recv, Ref) and recv.what == "dict":
+        d = st.heap[recv.rid]
+        k = args[0]
+        if default is NONE:
+            return Opt(znot(d.has(k)), d.get(k))
+        return _ite_val(to_z3(d.has(k)), d.get(k), default)
+    if isinstance(recv, Ref) and recv.what == "cdict":
+        d = st.heap[recv.rid]
+        k = args[0]
+        if isinstance(k, VStr) and k.text is not None:
+            return d.items.get(k.text, default)
+    raise Unsupported(".get on " + type(recv).__name__)
+
+
 VALUE_METHODS = {
+    "get": m_dict_get,
     "any": m_any, "all": lambda I, st, r, a, k, n: m_any(I, st, r, a, k, n, is_any=False),
     "append": m_append, "values": m_values, "tolist": m_tolist, "copy": m_copy, "reshape": m_reshape, "dot": m_dot,
 }
